@@ -66,6 +66,8 @@ def num_of(v):
     re, im = Q(v["re"]), Q(v["im"])
     if v["k"] == "complex":
         return complex(float(re), float(im))
+    if v["k"] == "int" and re.denominator == 1:
+        return int(re)
     return float(re)
 
 
@@ -99,6 +101,7 @@ def arith(op, a, ea, b, eb):
     return r, e + abs(r) * 2 * U
 
 
+EXTRA_ATOMS = {}       # per-case opaque literals (index -> value), set by the caller around a comparison
 ATOMS = {"negzero": -0.0, "subnormal": 5e-324, "tiny": 1e-300, "huge": 1e300, "mhuge": -1e300, "i62": 2 ** 62, "mi63": -2 ** 63}
 
 
@@ -106,7 +109,8 @@ def eval_term(t, env=None):
     """closed term of the spec (or expression AST with env: name -> python number / list) -> (value, err)"""
     k = t["t"]
     if k == "atom":
-        return ATOMS[t["a"]], 0.0
+        x = EXTRA_ATOMS[t["a"]] if t["a"] in EXTRA_ATOMS else ATOMS[t["a"]]
+        return x, abs(x) * U
     if k == "val":
         v = t["v"]
         if v.get("x"):
@@ -182,6 +186,8 @@ def compare_number(spec, real, err=0.0):
     else:
         want, w_err = eval_term(spec["term"])
         if k == "int":
+            if abs(want) >= 2 ** 63:
+                return None          # outside the 64-bit integer range the property is quantified over
             return None if x == want else "value %r, specification says %r" % (x, want)
         if k == "complex":
             want = complex(want)
